@@ -45,6 +45,7 @@ class BaseController : public Controller {
 public:
     enum Mode { SCRIPT, RANDOM, FALLBACK };
     Mode mode = SCRIPT;
+    bool yield_after_create() override { return mode == RANDOM; }
     std::vector<ScriptStep> script;
     size_t pos = 0;       // index of the step in progress
     bool in_step = false;
